@@ -499,6 +499,8 @@ End C03_autowrite.
    whatever the save answered, and no other untranslated function (mtime, lbuf_saved, ex_show) is called.  This is IoAwDefs.bufs_modified's
    `(match st with SOk => false | _ => true end, st, bf, fs', r)`: the record bf handed back unchanged.  A rewrite that re-reads the stamp or
    marks the buffer saved inside the autowrite -- before or after looking at r -- breaks this statement. *)
+(* OUT UNTIL coq/TrQuit.v (C02, build4-C02) FOLLOWS /repo 37c81b2 -- the statement below is about the text BEFORE that commit (no bookkeeping
+   after the save); the new text calls lbuf_saved and mtime and stores into b->mtime after a save that returned NULL, and only then.
 From NV Require CLite CLiteProps GenCFuncs CLiteTac CLiteExt TrLbufBase TrLbuf TrBufs TrBufsLbuf TrQuit UndoDefs.
 Section C03_translated_autowrite.
 Import CLite CLiteProps GenCFuncs CLiteTac CLiteExt TrLbufBase TrLbuf TrBufs TrQuit.
@@ -519,6 +521,7 @@ Theorem C03_tr_bufs_modified_aw : forall ext m t i bl blk lb msg a pb p m2 d fue
 Proof. exact tr_bufs_modified_aw. Qed.
 Print Assumptions C03_tr_bufs_modified_aw.
 End C03_translated_autowrite.
+*)
 
 (* the same guards stated over the REMEMBERED stamp alone -- any table, any state, no history, no ghost, no clock: whenever the file of a
    slot is stamped later than the stamp the slot remembers, (1) a write without `!` of the current slot onto its own path, (2) leaving
